@@ -756,6 +756,62 @@ fn case_float(r: &mut Rng) {
              cex.map_or("null".to_string(), |(x, y)| format!("[\"{:e}\",\"{:e}\"]", x, y)));
 }
 
+// float satisfy_greater (oracle only): a strict comparison is turned into a closed bound with next_up / next_down,
+// which must not step over any float (subnormals next to +-0.0 included)
+fn fneigh(x: f64) -> Vec<f64> {
+    let b = x.to_bits();
+    let mut v = vec![x];
+    if x.is_finite() {
+        for d in [1u64, 2, 1000] {
+            v.push(f64::from_bits(b.wrapping_add(d)));
+            v.push(f64::from_bits(b.wrapping_sub(d)));
+        }
+    }
+    v
+}
+fn case_fsatgt(r: &mut Rng) {
+    let zeroish = |r: &mut Rng| -> Option<f64> { if r.chance(1, 2) { Some(*r.pick(&[0.0, -0.0, 5e-324, -5e-324, 1e-310, 2.2250738585072014e-308, -2.2250738585072014e-308, 1.0, -1.0])) } else { gen_fbound(r) } };
+    let gi = |r: &mut Rng| {
+        let (mut l, mut u) = (zeroish(r), zeroish(r));
+        if let (Some(a), Some(b)) = (l, u) { if a > b { l = Some(b); u = Some(a); } }
+        (l, u)
+    };
+    let a = gi(r);
+    let b = gi(r);
+    let strict = r.chance(2, 3);
+    let res = call(|| {
+        let ia = Interval::make(a.0, a.1)?;
+        let ib = Interval::make(b.0, b.1)?;
+        let o = satisfy_greater(&ia, &ib, strict)?;
+        Ok(o.map(|(x, y)| {
+            let f = |i: &Interval| match (i.lower(), i.upper()) { (ScalarValue::Float64(l), ScalarValue::Float64(u)) => (*l, *u), _ => panic!("unexpected float interval") };
+            (f(&x), f(&y))
+        }))
+    });
+    let inside = |i: (Option<f64>, Option<f64>), v: f64| i.0.map_or(true, |l| l <= v) && i.1.map_or(true, |u| v <= u);
+    let mut xs: Vec<f64> = vec![];
+    for m in fmembers(r, a) { xs.extend(fneigh(m)); }
+    for m in fmembers(r, b) { xs.extend(fneigh(m)); }
+    for c in [0.0, -0.0, 5e-324, -5e-324, 1e-310, -1e-310, 2.2250738585072014e-308] { xs.extend(fneigh(c)); }
+    let xs: Vec<f64> = xs.into_iter().filter(|v| v.is_finite()).collect();
+    let mut cex = None;
+    if let Ok(ro) = &res {
+        'o: for &x in &xs { if !inside(a, x) { continue; } for &y in &xs { if !inside(b, y) { continue; }
+            if (strict && x > y) || (!strict && x >= y) {
+                let okp = match ro { None => false, Some((ra, rb)) => inside(*ra, x) && inside(*rb, y) };
+                if !okp { cex = Some((x, y)); break 'o; }
+            }
+        } }
+    }
+    let (rs, es) = match &res {
+        Ok(Some((x, y))) => (format!("[[{},{}],[{},{}]]", jf(x.0), jf(x.1), jf(y.0), jf(y.1)), "null".to_string()),
+        Ok(None) => ("\"infeasible\"".to_string(), "null".to_string()),
+        Err(e) => ("null".to_string(), json_str(e)) };
+    println!("{{\"k\":\"float\",\"op\":\"satisfy_greater strict={strict}\",\"a\":[{},{}],\"b\":[{},{}],\"res\":{rs},\"error\":{es},\"ok\":{},\"cex\":{}}}",
+             jf(a.0), jf(a.1), jf(b.0), jf(b.1), ok_of(&res, cex.is_none()),
+             cex.map_or("null".to_string(), |(x, y)| format!("[\"{:e}\",\"{:e}\"]", x, y)));
+}
+
 fn main() {
     let args: Vec<String> = std::env::args().collect();
     let seed: u64 = arg(&args, "--seed", "1").parse().unwrap();
@@ -781,7 +837,8 @@ fn main() {
             63..=74 => case_parith(&mut r),
             75..=82 => case_pcmp(&mut r),
             83..=94 => case_cp(&mut r),
-            _ => case_float(&mut r),
+            95..=97 => case_float(&mut r),
+            _ => case_fsatgt(&mut r),
         }
     }
 }
